@@ -114,6 +114,8 @@ def run_job(job):
                     out["selfcheck"]["mismatch"].append({"kind": kind, "index": idx})
             except Exception as e:  # noqa: BLE001
                 out["selfcheck"]["mismatch"].append({"kind": kind, "index": idx, "error": repr(e)})
+        if any(known.match(v) is None for v in res["violations"]):
+            out["violating_scenarios"] = out.get("violating_scenarios", 0) + 1
         for v in res["violations"]:
             key = vkey(v)
             hit = known.match(v)
